@@ -20,8 +20,9 @@ import (
 // output: (n0 (n<tok> ...))  tokens still reachable, ascending; (n1) constructor error
 
 func init() {
-	families["finite_retain"] = family{gen: sampled(genFinite, 45, 1000), exec: execFiniteRetain}
-	families["valid_retain"] = family{gen: sampled(genValid, 150, 60), exec: execValidRetain}
+	families["finite_retain"] = family{gen: sampled(genFinite, 45, 25), exec: execFiniteRetain}
+	// the long-backlog histories are few: all of them; of the others every 150th / 60th
+	families["valid_retain"] = family{gen: func(c *Ctx) { genValidBacklog(c); sampled(genValidHistories, 150, 60)(c) }, exec: execValidRetain}
 }
 
 // sampled runs every k-th case of a generator (k2 in the thorough tier): forcing collections is slow.
@@ -138,8 +139,10 @@ func runValidOps(r *sse.ValidReplayer, now *time.Time, ops []val.V, f *finalizer
 			case 1:
 				w := &scriptWriter{script: scriptOf(op.At(4))}
 				_ = r.Replay(sse.Subscription{Client: w, LastEventID: lastID(op.At(2)), Topics: op.At(3).Strs()})
-			default:
+			case 2:
 				r.GC()
+			default:
+				r.GCInterval = time.Duration(op.At(2).Signed())
 			}
 		}()
 	}
